@@ -106,3 +106,24 @@ Section AbfSystem.
                (extlag_resumable O (abf_machine O) (eabf_force O) (eabf_bin O) _ _ _ _ _ _ F0 F1 HA)).
   Qed.
 End AbfSystem.
+
+(* Chains of resumed runs: objects whose state files are compared by equality. *)
+Lemma resume_chain_objects :
+  (forall (Cfg St In Out Saved : Type) (M : machine Cfg St In Out Saved) (Ok : Cfg -> Prop) (OutEq0 OutEq : Out -> Out -> Prop),
+     resumes_like_uninterrupted M Ok OutEq0 OutEq eq -> resumes_repeatedly M Ok) /\
+  (forall (T : Type) (O : NumOps T), resumes_repeatedly (restraint_machine O) r_ok) /\
+  (forall (T : Type) (O : NumOps T), resumes_repeatedly (abf_machine O) (@abf_ok T)) /\
+  resumes_repeatedly module_machine (fun _ => True).
+Proof.
+  split; [|split; [|split]].
+  - intros. eapply resume_chain; eauto.
+  - intros T O. apply (resume_chain _ _ (@r_out_eq0 T) (@r_out_eq T)).
+    apply resumes_uninterrupted_of_go_on; [reflexivity|].
+    exact (resumable_resumes _ _ _ _ _ _ _ (restraint_resumable O)).
+  - intros T O. apply (resume_chain _ _ (@abf_out_eq0 T) (@abf_out_eq T)).
+    apply resumes_uninterrupted_of_go_on; [reflexivity|].
+    exact (resumable_resumes _ _ _ _ _ _ _ (abf_resumable O)).
+  - apply (resume_chain _ _ (fun o o' => fst o = fst o') eq).
+    apply resumes_uninterrupted_of_go_on; [reflexivity|].
+    exact (resumable_resumes _ _ _ _ _ _ _ module_resumable).
+Qed.
